@@ -1,4 +1,5 @@
 import B6.Lemmas.ChangeExport
+import B6.Spec.World
 /-!
 # C18 — Exported change files reproduce the edited world
 
@@ -81,6 +82,21 @@ theorem export_import_reads {b : Base} {acc : St → Feat → Bool} (hb : b.IdsO
         simpa [viewOf] using this
       · have := congrArg (fun fv => fv.body) h
         simpa [viewOf] using this
+
+/-- in terms of C12's spec (`B6.Spec.World`: feature id ⇀ tag key ⇀ value): a per-feature map that
+describes the tag reads of the edited world — under any rendering `toVal` of values — describes those of the
+re-imported world too -/
+theorem export_import_same_spec_world {b : Base} {acc : St → Feat → Bool} (hb : b.IdsOK)
+    {s s' : St} (hs : s.FeatsId) (hm : ModsNodup s.mods) (ord : List Id)
+    (hcov : ∀ i, (get s.feats i).isSome → i ∈ ord)
+    (hstable : KindStable s ord) {docs : List Doc}
+    (htext : textDocs (exportDocs s ord) = .ok docs)
+    (himport : importDocs b acc St.empty docs = some s')
+    (toVal : V → B6.Model.Mutable.Val) (w : B6.Spec.World.World)
+    (hw : ∀ id k, B6.Spec.World.tagOf w id k = ((abs b s id).map (fun fv => fv.tags k)).map (·.map toVal)) :
+    ∀ id k, B6.Spec.World.tagOf w id k = ((abs b s' id).map (fun fv => fv.tags k)).map (·.map toVal) := by
+  rw [export_import_refines hb hs hm ord hcov hstable htext himport]
+  exact hw
 
 /-! ## the standing assumptions hold for every world the code can reach -/
 
@@ -223,6 +239,52 @@ theorem sorted_refs_first (rk : Id → Nat) (l : List Id) (hsorted : l.Pairwise 
   have h2 := (List.pairwise_cons.mp h.2.1).1 r hr
   omega
 
+/-- **the export rank rises strictly along references**, for overlays whose references are acyclic: there is a
+height that drops along every reference of an overlay feature and stays below the closure's fuel (the number
+of overlay features + 1).  Paths over points and areas over paths always are; relations and collections that
+contain each other are not, and are never validated. -/
+theorem rank_lt_of_ref {s : St} {h : Id → Nat} (hh : Height s h) (hb : ∀ t, h t < s.fuel)
+    (e : Id × Feat) (he : e ∈ s.feats) (t : Id) (ht : t ∈ refsOf e.2) :
+    rank s e.2.id < rank s t :=
+  B6.Model.ChangeExport.rank_lt_of_ref hh hb e he t ht
+
+/-- **the exported order puts references first**: in the order the export picks (rank descending), nothing
+an overlay feature refers to comes after it -/
+theorem export_order_refs_first {s : St} {h : Id → Nat} (hh : Height s h) (hb : ∀ t, h t < s.fuel)
+    (e : Id × Feat) (he : e ∈ s.feats) (r : Id) (hr : r ∈ refsOf e.2)
+    (l1 l2 : List Id) (hl : exportOrder s = l1 ++ e.2.id :: l2) : r ∉ l2 :=
+  sorted_refs_first (rank s) (exportOrder s) (exportOrder_sorted s) e.2.id r
+    (rank_lt_of_ref hh hb e he r hr) l1 l2 hl
+
+/-- the main theorem for the order the export picks -/
+theorem export_import_refines_exportOrder {b : Base} {acc : St → Feat → Bool} (hb : b.IdsOK)
+    {s s' : St} (hwf : s.WF) (hstable : KindStable s (exportOrder s)) {docs : List Doc}
+    (htext : textDocs (exportDocs s (exportOrder s)) = .ok docs)
+    (himport : importDocs b acc St.empty docs = some s') :
+    abs b s' = abs b s :=
+  export_import_refines hb hwf.1 hwf.2 (exportOrder s) (exportOrder_covers s) hstable htext himport
+
+/-- **references first ⇒ no missing reference on import.** Take an overlay feature `f` whose own references
+resolve in the edited world (it was validated there).  When `Apply` has got through the modified-tag
+documents and the feature documents `l1` — which include every exported feature `f` refers to, as the
+ordering lemma guarantees for the features listed before `f` — then `f`'s references resolve in the world
+being rebuilt as well: `AddFeature` cannot reject `f` for a missing reference.  (What it can still reject `f`
+for is the finding `import-intermediate-state`: a referrer of `f`, or S2, in a world that never existed.) -/
+theorem import_no_missing_reference {b : Base} {acc : St → Feat → Bool} (hb : b.IdsOK) {s : St} (hwf : s.WF)
+    (l1 : List Id) (f : Feat) (ht : f.Typed)
+    (hfirst : ∀ r, r ∈ refsOf f → (get s.feats r).isSome → r ∈ l1)
+    (hclosed : validateFeature (s.find b) f ≠ .missing)
+    {sk : St} (hk : importDocs b acc St.empty (exportDocs s l1) = some sk) :
+    validateFeature (sk.find b) f ≠ .missing := by
+  have habs := (importDocs_refines hb _ St.empty sk featsId_empty hk).1
+  have hr : ∀ r, r ∈ refsOf f → (sk.find b r).map viewOf = (s.find b r).map viewOf := by
+    intro r hr
+    have := export_spec_at b hwf.1 hwf.2 l1 r (hfirst r hr)
+    rw [← habs] at this
+    exact this
+  intro hm
+  exact hclosed ((missing_congr _ _ f ht hr).mp hm)
+
 /-! ## what the text layer does to values that are not stable -/
 
 /-- before the fix every string was written bare: one that looks like a lat,lng came back as a point (with
@@ -296,6 +358,20 @@ example : exS.WF := by
     ⟨1024, [("path", .list [nid 21, nid 2]), ("#highway", .atom (.str "a;b"))], .generic⟩
   exact (wf_ops (baseOf_idsOK exBaseFeats) h4).2.2
     ⟨3028, [("type", .atom (.int 5))], .relation [(1024, "way"), (21, "stop")]⟩
+
+/-- the overlay of `exS` is acyclic: points above paths above everything else, below the fuel -/
+example : Height exS (fun t => if idType t == 0 then 2 else if idType t == 1 then 1 else 0) ∧
+    ∀ t, (fun t => if idType t == 0 then 2 else if idType t == 1 then 1 else 0) t < exS.fuel := by
+  constructor
+  · unfold Height
+    decide
+  · intro t
+    have : exS.fuel = 4 := by decide
+    rw [this]
+    simp only
+    split
+    · omega
+    · split <;> omega
 
 /-- the export lists the point before the path before the relation, after the modified-tag document -/
 example : exportOrder exS = [21, 1024, 3028] := by decide
